@@ -543,58 +543,69 @@ func c14Chain(c *Ctx) {
 			collect(in.Block(), 0)
 			_ = seen
 		}
-		// simpler and robust: for each If comparing the status with a constant, follow the true edge to the first return
-		for _, b := range fn.Blocks {
-			ifi, ok := b.Instrs[len(b.Instrs)-1].(*ssa.If)
-			if !ok {
-				continue
-			}
-			bo, ok := ifi.Cond.(*ssa.BinOp)
-			if !ok || bo.Op != token.EQL {
-				continue
-			}
-			k, ok := bo.Y.(*ssa.Const)
-			if !ok {
-				continue
-			}
-			s, ok := constString(k)
-			if !ok {
-				continue
-			}
-			// walk the true edge until a return or the loop header
-			resetSeen := false
-			var ret ssa.Instruction
-			cur := b.Succs[0]
-			for steps := 0; steps < 6 && ret == nil; steps++ {
-				for _, in := range cur.Instrs {
-					if st, ok := in.(*ssa.Store); ok {
-						if _, f, _, ok := fieldAddrInfo(st.Addr); ok && f == spec.idx && isZero(st.Val) {
-							resetSeen = true
-						}
+		// per status value: walk only the edges consistent with `status == V` from the filter invocation on. For Stop and
+		// termination every return so reached must lie behind a reset of the cursor (wherever in the iteration it is made:
+		// in the switch arm, or before the status handler, which may give the chain back to the pool); for the two re-run
+		// statuses a return must be reached and no reset may lie on the way.
+		statusEdge := func(v string) func(from, to *ssa.BasicBlock) bool {
+			return func(from, to *ssa.BasicBlock) bool {
+				ifi, ok := from.Instrs[len(from.Instrs)-1].(*ssa.If)
+				if !ok || len(from.Succs) != 2 || from.Succs[0] == from.Succs[1] {
+					return true
+				}
+				for _, g := range normGuard(Guard{Cond: ifi.Cond, True: to == from.Succs[0], If: ifi}) {
+					bo, ok := g.Cond.(*ssa.BinOp)
+					if !ok || (bo.Op != token.EQL && bo.Op != token.NEQ) {
+						continue
 					}
-					if isReturn(in) {
-						ret = in
+					k, ok := bo.Y.(*ssa.Const)
+					if !ok {
+						continue
+					}
+					sv, ok := constString(k)
+					if !ok {
+						continue
+					}
+					saysEqual := (bo.Op == token.EQL) == g.True
+					if saysEqual != (sv == v) {
+						return false
 					}
 				}
-				if ret != nil || len(cur.Succs) != 1 {
-					break
-				}
-				cur = cur.Succs[0]
+				return true
 			}
-			switch s {
-			case "Stop", "termination":
+		}
+		isReset := func(in ssa.Instruction) bool {
+			for _, r := range resets {
+				if ssa.Instruction(r) == in {
+					return true
+				}
+			}
+			return false
+		}
+		if len(inv) == 1 {
+			for _, v := range []string{"Stop", "termination"} {
 				nStop++
-				if ret == nil || !resetSeen {
+				reaches := existsPathEdges(fn, inv[0].Instr, isReturn, nil, statusEdge(v)) != nil
+				unreset := existsPathEdges(fn, inv[0].Instr, isReturn, isReset, statusEdge(v)) != nil
+				if !reaches || unreset {
 					stopOK = false
 				}
-			case "Retry Match Route", "Retry Choose Host":
+			}
+			for _, v := range []string{"Retry Match Route", "Retry Choose Host"} {
 				nRe++
-				if spec.fn == "RunReceiverFilter" && (ret == nil || resetSeen) {
+				if spec.fn != "RunReceiverFilter" {
+					continue
+				}
+				// a return is reached before the next filter is invoked, and no reset on the way
+				nextInv := func(in ssa.Instruction) bool { return in == inv[0].Instr }
+				ret := existsPathEdges(fn, inv[0].Instr, isReturn, func(in ssa.Instruction) bool { return isReset(in) || nextInv(in) }, statusEdge(v)) != nil
+				goesOn := existsPathEdges(fn, inv[0].Instr, func(in ssa.Instruction) bool { return isReset(in) || nextInv(in) }, isReturn, statusEdge(v)) != nil
+				if !ret || goesOn {
 					reOK = false
 				}
 			}
-			_ = resetBeforeReturn
 		}
+		_ = resetBeforeReturn
 		c.Check("C14.R5", fk+":stop-resets", fn.Pos(), stopOK && nStop >= 2, "Stop/termination reset the cursor and return", "Stop/termination do not reset the chain cursor and return: the next pass would start in the middle of the chain")
 		if spec.fn == "RunReceiverFilter" {
 			c.Check("C14.R5", fk+":rematch-resumes", fn.Pos(), reOK && nRe >= 2, "ReMatchRoute/ReChooseHost return without resetting the cursor (the phase resumes at the asking filter)", "ReMatchRoute/ReChooseHost reset the cursor (or do not return): earlier filters would run again after the re-match")
